@@ -2,4 +2,4 @@ From Coq Require Extraction.
 From Coq Require Import ExtrOcamlBasic.
 From HT Require Import Model.Driver.
 Extraction Language OCaml.
-Extraction "../ocaml/model.ml" run.
+Extraction "../ocaml/model_core.ml" run.
